@@ -225,6 +225,13 @@ DESCR = {
  "C16-M": ("the last connection's cleanup calls refreshTimeout (reads s.listener without the mutex)", "a connection ending after Shutdown closed the listener but before teardown"),
  "C17-M": ("deadline arming moved into the helper goroutine", "cancel within microseconds of the start of the operation"),
  "C18-M": ("a cancelled read joins its helper for at most 100 ms, then resets the forced deadline", "a transport whose reads start late: the helper left behind takes the next bytes"),
+ "C05-N": ("next() decodes whole runes while backup() still steps back one byte", "a doc line whose text starts right after '#' with a non-ASCII character"),
+ "C06-N": ("builtin type keywords looked up in a map without the comma-ok test (zero value = bool)", "any lower-case word that is not a builtin in type position"),
+ "C07-N": ("description literal built by a helper that escapes CR first and backticks second (the CR replacement contains backticks)", "a description with CR (CRLF file): compiles, reports a different text"),
+ "C08-N": ("generated Dispatch_Error strips the interface prefix with strings.TrimLeft (a character set)", "an error name whose first letters also occur in the interface name"),
+ "C09-N": ("member list pre-sized with count(newline) - count('#')", "more '#' characters than newlines in the input"),
+ "C19-N": ("parseAddress takes the mutex; two refusal returns never unlock", "a refused address (other protocol, empty unix path), then any further Bind/Shutdown on the object"),
+ "C20-N": ("fd := 3 as default, an inner fd := -1 in the names block shadows it", "LISTEN_FDS > 1 with varlink not in first position"),
 }
 
 conf = {}
@@ -268,7 +275,7 @@ for pid in sorted(props):
                 shutil.copy(os.path.join(out, extra), os.path.join(d, extra))
         if os.path.isdir(os.path.join(out, f"{pid}_{v}_demo")):
             shutil.copytree(os.path.join(out, f"{pid}_{v}_demo"), os.path.join(d, "demo")); demo = "demo/run.sh"
-        for nf in (f"{pid}_notes.md", f"{pid}_notes2.md", f"{pid}_notes3.md", f"{pid}_notes4.md", f"{pid}_notes5.md", f"{pid}_notes6.md", f"{pid}_notes7.md", f"{pid}_notes8.md"):
+        for nf in (f"{pid}_notes.md", f"{pid}_notes2.md", f"{pid}_notes3.md", f"{pid}_notes4.md", f"{pid}_notes5.md", f"{pid}_notes6.md", f"{pid}_notes7.md", f"{pid}_notes8.md", f"{pid}_notes9.md"):
             if os.path.exists(os.path.join(out, nf)):
                 shutil.copy(os.path.join(out, nf), os.path.join(d, "notes.md"))
         what, needs = DESCR.get(key, ("see notes.md", "see notes.md"))
